@@ -67,7 +67,7 @@ class Boom(Exception):
 
 def make_func(kind, call_id, dur, rnd):
     """the limited function for one call class; returns (callable, expected result or exception class)"""
-    def ticks(total, swallow=0):
+    def ticks(total, swallow=0, after_swallow=.03):
         t_end = time.monotonic() + total
         swallowed = 0
         log(call_id, 'start')
@@ -83,7 +83,7 @@ def make_func(kind, call_id, dur, rnd):
                 log(call_id, 'exc_in_worker', type=type(e).__name__)
                 if swallowed < swallow:
                     swallowed += 1
-                    t_end = min(t_end, time.monotonic() + .03)
+                    t_end = min(t_end, time.monotonic() + after_swallow)
                     continue
                 raise
         log(call_id, 'end')
@@ -109,6 +109,9 @@ def make_func(kind, call_id, dur, rnd):
         return (lambda: ticks(dur)), ('done', call_id)
     if kind == 'swallow_once':
         return (lambda: ticks(dur, swallow=1)), ('done', call_id)
+    if kind == 'swallow_long':
+        # swallows the interrupt once and keeps working for dur[1] seconds (several times the limit)
+        return (lambda: ticks(dur[0], swallow=1, after_swallow=dur[1])), ('done', call_id)
     if kind == 'native_sleep':
         def f():
             log(call_id, 'start')
@@ -191,7 +194,7 @@ def one_call(kind, call_id, limit, dur, col, rnd, baseline_threads, cfg):
     elif kind == 'raise_timeout_itself':
         if outcome != 'timeout':
             viol('own_exception_not_reraised')
-    elif kind in ('blocked', 'native_sleep', 'swallow_once'):
+    elif kind in ('blocked', 'native_sleep', 'swallow_once', 'swallow_long'):
         if outcome != 'timeout':
             viol('no_timeout_for_function_exceeding_limit')
     elif kind in ('near_limit', 'work'):
@@ -209,6 +212,10 @@ def one_call(kind, call_id, limit, dur, col, rnd, baseline_threads, cfg):
         viol('timeout_reported_before_limit_elapsed')
     # ---- nothing left running ----
     time.sleep(.05)
+    if kind == 'native_sleep':
+        time.sleep(max(0., t0 + dur + .08 - time.monotonic()))   # a worker that was abandoned wakes up by then
+    if kind == 'swallow_long':
+        time.sleep(max(0., t0 + limit + dur[1] + .08 - time.monotonic()))
     with LOG_LOCK:
         late = [(t, k) for t, c, tid, k, kw in LOG if c == call_id and tid != threading.get_ident() and
                 t > t1 + .02 and k in ('tick', 'start', 'end', 'exc_in_worker')]
@@ -249,7 +256,7 @@ def worker(task, col):
     baseline = set(threading.enumerate())
     interleavings = set()
     kinds = ['fast_return', 'fast_raise', 'raise_timeout_itself', 'work', 'near_limit', 'near_limit', 'near_limit',
-             'blocked', 'swallow_once', 'native_sleep']
+             'blocked', 'swallow_once', 'native_sleep', 'swallow_long']
     if task.get('only') == 'nested':
         # nested calls run in their own processes: the leaked inner worker (KF-TL-NESTED) has been seen to crash the
         # interpreter in run_timeout's gc.collect(); isolating them keeps that from taking other observations down
@@ -277,7 +284,9 @@ def worker(task, col):
             cfg['inject'] = plan
         else:
             inj.set()
-        if kind == 'work':
+        if kind in ('fast_return', 'fast_raise', 'raise_timeout_itself'):
+            limit, dur = 5, 0     # "finishes in time" must not depend on the load of the machine
+        elif kind == 'work':
             limit, dur = 5, .01
         elif kind == 'near_limit':
             dur = limit * rnd.choice([.5, .8, .95, 1.0, 1.05, 1.2, 1.5])
@@ -286,7 +295,9 @@ def worker(task, col):
         elif kind == 'swallow_once':
             dur = 30
         elif kind == 'native_sleep':
-            dur = limit + .12
+            dur = limit * rnd.choice([1.5, 3, 4]) + .12
+        elif kind == 'swallow_long':
+            dur = (30, limit * rnd.choice([2.5, 4]) + .05)
         elif kind == 'nested':
             dur = rnd.choice([(.03, .2), (.2, .02), (.05, .05)])
             limit = rnd.choice([.02, .1, .3])
@@ -297,7 +308,7 @@ def worker(task, col):
         interleavings.add(r)
         col.nontrivial.add('%s|%s' % (kind, r))
         with LOG_LOCK:
-            if len(col.samples) < 2 and kind in ('near_limit', 'swallow_once'):
+            if len(col.samples) < 2 and kind in ('near_limit', 'swallow_once', 'swallow_long'):
                 col.sample({'call': {'kind': kind, 'limit': limit, 'dur': dur, 'cfg': cfg},
                             'history': [(k, kw) for t, c, tid, k, kw in LOG if c == call_id and k != 'tick'][:12]})
             del LOG[:]
